@@ -138,10 +138,12 @@ KF_Dump == \E mo \in (IF Listed("KF-C10-2") THEN BOOLEAN ELSE {FALSE}) :
            \E rs \in (IF Listed("KF-C10-4") THEN BOOLEAN ELSE {FALSE}) :
            \E ord \in (IF Listed("KF-C10-5") THEN Orders ELSE {InOrder}) :
               /\ mo \/ rs \/ ord # InOrder
-              /\ mo => MergeOnlyUni # StrictUni /\ UseDeviation("KF-C10-2")
-              /\ rs => Resurrected # {} /\ UseDeviation("KF-C10-4")
-              /\ ord # InOrder => UseDeviation("KF-C10-5")
+              /\ mo => MergeOnlyUni # StrictUni
+              /\ rs => Resurrected # {}
               /\ DumpWith(mo, rs, ord)
+              /\ mo => UseDeviation("KF-C10-2")
+              /\ rs => UseDeviation("KF-C10-4")
+              /\ ord # InOrder => UseDeviation("KF-C10-5")
 KF_C10_4 == /\ Listed("KF-C10-4")
             /\ OpCore /\ \E p \in ustore : p[2] \in Removed(EvS)
             /\ UNCHANGED ustore /\ UseDeviation("KF-C10-4")
